@@ -2,6 +2,7 @@
 
 Tables read from /repo with `ast`, fail-closed:
   extension_map, detect_consts (suffix lower-casing, shebang prefix/needle/result, the "unknown" literal),
+  detect_locality (the detector is stateless and is called afresh per file on the path that is linted, not on its symlink target),
   language_enum, cli_filters (command variant -> conjunction of rule-id predicates), rule_table (every
   concrete rule class under src/linters: own rule id, package, base kind, language guard, config keys),
   registry_rule_ids (package, every rule id literal a package can emit).
@@ -47,6 +48,92 @@ def _body(fn):
 
 def _u(n) -> str:
     return ast.unparse(n)
+
+
+# ------------------------------------------------------------------ locality of language detection
+CORE = "src/orchestrator/core.py"
+_RESOLVED_ARGS = ("file_path.resolve()", "file_path.resolve(strict=False)", "file_path.resolve(strict=True)", "Path(os.path.realpath(file_path))",
+                  "file_path.readlink()", "file_path.absolute().resolve()")
+
+
+def detect_locality():
+    """the language of a file depends on nothing but the path that is linted: (a) the detector module holds no state (no decorators
+    on its functions - e.g. a cache -, no module-level names besides EXTENSION_MAP, no global statements; the function bodies are pinned
+    statement by statement by detect_consts); (b) the orchestrator calls it afresh for every file with the path it was given
+    (`detect_language(file_path)`: detect_arg_resolved = false; a symlink-resolving argument: true; anything else fails closed) and
+    hands exactly that value to the rules' context"""
+    mod = parse(LD)
+    names = ["_detect_from_shebang", "_read_first_line", "_parse_shebang_language", "detect_language"]
+    for st in _body(mod):
+        if isinstance(st, (ast.Import, ast.ImportFrom)):
+            continue
+        if isinstance(st, ast.Assign) and [_u(t) for t in st.targets] == ["EXTENSION_MAP"]:
+            continue
+        if isinstance(st, ast.FunctionDef) and st.name in names:
+            if st.decorator_list:
+                raise Unsupported(f"language_detector.{st.name} is decorated ({_u(st.decorator_list[0])}): its result may depend on earlier calls")
+            continue
+        raise Unsupported(f"language_detector: unexpected module-level statement `{_u(st)[:60]}`")
+    for n in ast.walk(mod):
+        if isinstance(n, (ast.Global, ast.Nonlocal, ast.ClassDef, ast.Lambda)):
+            raise Unsupported(f"language_detector: {type(n).__name__} statement")
+    core = parse(CORE)
+    imp = [n for n in ast.walk(core) if isinstance(n, ast.ImportFrom) and any(a.name == "detect_language" for a in n.names)]
+    if not (len(imp) == 1 and imp[0].module == "language_detector" and imp[0].level == 1 and all(a.asname is None for a in imp[0].names)):
+        raise Unsupported("core.py: detect_language is not imported (exactly once, unrenamed) from .language_detector")
+    if any(isinstance(n, (ast.Assign, ast.AnnAssign, ast.AugAssign)) and "detect_language" in
+           [_u(t) for t in (n.targets if isinstance(n, ast.Assign) else [n.target])] for n in ast.walk(core)):
+        raise Unsupported("core.py: detect_language is rebound")
+    orch = find_class(core, "Orchestrator")
+    lf = find_func(orch, "lint_file")
+    stmts = [_u(x) for x in _body(lf)]
+    calls = [n for n in ast.walk(core) if isinstance(n, ast.Call) and _u(n.func) == "detect_language"]
+    args = set()
+    for c in calls:
+        if len(c.args) != 1 or c.keywords:
+            raise Unsupported("core.py: detect_language call shape")
+        args.add(_u(c.args[0]))
+    if len(calls) != 2:
+        raise Unsupported(f"core.py: {len(calls)} calls of detect_language (expected lint_file and _collect_cross_file_evidence)")
+    if args == {"file_path"}:
+        resolved = False
+    elif args <= set(_RESOLVED_ARGS):
+        resolved = True
+    else:
+        raise Unsupported(f"core.py: detect_language is called on {sorted(args)}")
+    lang_stmt = [x for x in stmts if x.startswith("language =") or x.startswith("language:")]
+    if not (len(lang_stmt) == 1 and lang_stmt[0] == f"language = detect_language({_u(calls[0].args[0])})" or lang_stmt == ["language = detect_language(file_path)"]):
+        raise Unsupported(f"lint_file: language is computed as {lang_stmt}")
+    stores = [n for n in ast.walk(lf) if isinstance(n, ast.Name) and n.id == "language" and isinstance(n.ctx, ast.Store)]
+    if len(stores) != 1:
+        raise Unsupported("lint_file: `language` is assigned more than once")
+    for need in ("rules = self._get_rules_for_file(file_path, language)", "context = FileLintContext(file_path, language, metadata=metadata)",
+                 "return self._execute_rules(rules, context)"):
+        if need not in stmts:
+            raise Unsupported(f"lint_file: statement `{need}` not found")
+    if [n.id for n in ast.walk(lf) if isinstance(n, ast.Name) and n.id == "file_path" and isinstance(n.ctx, ast.Store)]:
+        raise Unsupported("lint_file: file_path is reassigned")
+    for fn_name, loop_over in (("lint_files", "file_paths"), ("lint_directory", "file_paths")):
+        fn = find_func(orch, fn_name)
+        loops = [x for x in _body(fn) if isinstance(x, ast.For)]
+        if not (len(loops) >= 1 and _u(loops[0].target) == "file_path" and _u(loops[0].iter) == loop_over
+                and [_u(x) for x in loops[0].body] == ["violations.extend(self.lint_file(file_path))"]):
+            raise Unsupported(f"{fn_name}: the per-file loop does not hand each path unchanged to lint_file")
+    ev = find_func(orch, "_collect_cross_file_evidence")
+    ctxs = [_u(n) for n in ast.walk(ev) if isinstance(n, ast.Call) and _u(n.func) == "FileLintContext"]
+    if not (len(ctxs) == 1 and ctxs[0].startswith("FileLintContext(file_path, detect_language(")):
+        raise Unsupported(f"_collect_cross_file_evidence: context built as {ctxs}")
+    ctx = find_class(core, "FileLintContext")
+    init = find_func(ctx, "__init__")
+    if [a.arg for a in init.args.args][:3] != ["self", "path", "lang"] or "self._language = lang" not in [_u(x) for x in _body(init)]:
+        raise Unsupported("FileLintContext.__init__: language parameter / storage shape")
+    lang_prop = find_func(ctx, "language")
+    if [_u(x) for x in _body(lang_prop)] != ["return self._language"] or [_u(d) for d in lang_prop.decorator_list] != ["property"]:
+        raise Unsupported("FileLintContext.language shape")
+    st = [n for n in ast.walk(core) if isinstance(n, ast.Attribute) and n.attr == "_language" and isinstance(n.ctx, ast.Store)]
+    if len(st) != 1:
+        raise Unsupported("core.py: _language is stored in more than one place")
+    return defn("detect_arg_resolved", "bool", "true" if resolved else "false") + defn("detect_stateless", "bool", "true")
 
 
 # ------------------------------------------------------------------ language detection
@@ -776,6 +863,7 @@ def name_exemptions():
 ITEMS = [
     ("extension_map", extension_map),
     ("detect_consts", detect_consts),
+    ("detect_locality", detect_locality),
     ("language_enum", language_enum),
     ("cli_filters", cli_filters),
     ("rule_table", rule_table),
